@@ -18,7 +18,8 @@ Variable sha1 : bytes -> bytes.
 Variable s2k : Z -> Z -> Z -> bytes -> Z -> bytes -> bytes.
 
 (* decrypt_keyblob: the plaintext is the model's decrypt_std, it is returned exactly when the model's gate passes,
-   and PGPDecryptionError is raised otherwise -- for every usage octet, not only 254 / 255 *)
+   and PGPDecryptionError is raised otherwise -- for every usage octet (since repair 8563c06: SHA-1 for 254, the 16-bit sum
+   for anything else, 255 or a legacy cipher id) *)
 Lemma refine_decrypt_keyblob b pass :
   gen_decrypt_keyblob sha1 cfb_dec s2k (b_usage b) (b_alg b) (b_spec b) (b_halg b) (b_salt b) (b_count b) (b_iv b) (b_enc b) pass =
   let pt := decrypt_std cfb_dec s2k b pass in
@@ -26,10 +27,9 @@ Lemma refine_decrypt_keyblob b pass :
 Proof.
   unfold gen_decrypt_keyblob, decrypt_std, gate. cbv zeta. unfold bytes_to_int.
   set (pt := cfb_dec _ _ _ _).
-  destruct (Z.eqb_spec (b_usage b) 254) as [E|E].
-  - rewrite E. cbn [Z.eqb Pos.eqb andb]. destruct (eqb_bytes _ _); reflexivity.
-  - cbn [andb]. destruct (b_usage b =? 255); cbn [andb]; [|reflexivity].
-    destruct (unbe (lastn 2 pt) =? sumz (firstn (length pt - 2) pt) mod 65536); reflexivity.
+  destruct (b_usage b =? 254); cbn [andb negb].
+  - destruct (eqb_bytes _ _); reflexivity.
+  - destruct (unbe (lastn 2 pt) =? sumz (firstn (length pt - 2) pt) mod 65536); reflexivity.
 Qed.
 
 (* in the vocabulary of unprotect_std: accepted = the MPIs are read from the translated function's result *)
@@ -72,6 +72,7 @@ Lemma refine_encrypt_keyblob_emit pass alg halg mpis iv salt count :
   = protect cfb_enc sha1 s2k mpis pass iv salt count alg halg.
 Proof.
   rewrite refine_encrypt_keyblob. unfold blob_emit, s2k_emit_std, protect, protect_enc.
+  cbn [b_usage]. change (legacy 254) with false. cbv iota.
   cbn [b_usage b_alg b_spec b_halg b_salt b_count b_iv b_enc Z.eqb Pos.eqb Z.leb Z.compare Pos.compare Pos.compare_cont].
   repeat (rewrite <- app_assoc; cbn [app]). reflexivity.
 Qed.
